@@ -28,7 +28,7 @@ ASSUMPTIONS = ["buffer ids are opaque: the model only requires an id not to "
                "an unbuffered packet-in carries the whole frame whatever "
                "max_len / miss_send_len say"]
 REQUIRED = ["packet_ins", "buffered", "unbuffered_pool_full", "released_by_packet_out",
-            "released_by_flow_mod", "flow_mod_modify_with_buffer", "stale_uses",
+            "released_by_flow_mod", "flow_mod_modify_with_buffer", "rebuffered_during_release", "stale_uses",
             "bogus_uses", "truncated",
             "ids_reused_after_release"]
 TIMEOUT = {"quick": 900, "thorough": 7200}
@@ -48,7 +48,12 @@ ACTS = [[dict(type=0, port=2, max_len=0)],
         [dict(type=4, dl_addr=b"\x0a" * 6), dict(type=0, port=3, max_len=0)],
         [dict(type=0, port=OA.OFPP_FLOOD, max_len=0)],
         [],
-        [dict(type=0, port=OA.OFPP_IN_PORT, max_len=0)]]
+        [dict(type=0, port=OA.OFPP_IN_PORT, max_len=0)],
+        # the stored packet goes (also) to the controller: a new packet-in,
+        # and a new buffer, while the old one is being released
+        [dict(type=0, port=OA.OFPP_CONTROLLER, max_len=40)],
+        [dict(type=0, port=2, max_len=0),
+         dict(type=0, port=OA.OFPP_CONTROLLER, max_len=0xffff)]]
 
 
 def frame (uid, dst, size):
@@ -82,6 +87,58 @@ def run_history (case, rep):
   xid = 100
   nt = False
   extra_flows = 0
+  def judge_pin (m, raw, in_port, reason, limit, releasing=0):
+    """One packet-in against the model pool.  releasing: buffers that are
+    being released by the very operation that produced this packet-in (they
+    may or may not count as occupied while it is stored)."""
+    nonlocal nt
+    rep.count("packet_ins")
+    if m["in_port"] != in_port or m["reason"] != reason:
+      fire("packet-in in_port/reason", "%d/%d vs %d/%d" %
+           (m["in_port"], m["reason"], in_port, reason)); return False
+    bid = m["buffer_id"]
+    if bid == NO_BUFFER:
+      if len(outstanding) + releasing < pool:
+        fire("packet-in without buffer id although a buffer is free",
+             "outstanding %d of %d" % (len(outstanding), pool)); return False
+      if pool: rep.count("unbuffered_pool_full"); nt = True
+      if m["data"] != raw:
+        fire("unbuffered packet-in does not carry the whole frame",
+             "data %d bytes, frame %d bytes" % (len(m["data"]), len(raw)))
+        return False
+      if m["total_len"] != len(raw):
+        fire("unbuffered packet-in total_len", "%d vs %d" %
+             (m["total_len"], len(raw))); return False
+    else:
+      rep.count("buffered")
+      if bid in outstanding:
+        fire("buffer id handed out while still outstanding",
+             "id %d" % bid); return False
+      if len(outstanding) >= pool:
+        fire("more packets stored than the advertised buffer count",
+             "pool %d, outstanding before this one %d" %
+             (pool, len(outstanding))); return False
+      if bid in ever: rep.count("ids_reused_after_release")
+      ever.add(bid)
+      outstanding[bid] = (raw, in_port)
+      if len(m["data"]) > limit:
+        fire("buffered packet-in carries more than the %s" %
+             ("miss length" if reason == 0 else "action max_len"),
+             "%d > %d" % (len(m["data"]), limit)); return False
+      if m["data"] != raw[:len(m["data"])]:
+        fire("packet-in data is not a prefix of the frame", ""); return False
+      if len(m["data"]) < min(limit, len(raw)):
+        fire("buffered packet-in carries less than allowed",
+             "%d < min(%d, %d)" % (len(m["data"]), limit, len(raw)))
+        return False
+      if len(m["data"]) < len(raw): rep.count("truncated")
+      if m["total_len"] != len(raw):
+        fire("buffered packet-in total_len is not the frame length",
+             "total_len %d, frame %d, data %d" %
+             (m["total_len"], len(raw), len(m["data"])))
+        return False
+    return True
+
   for op in case["ops"]:
     k = op[0]
     xid += 1
@@ -111,52 +168,7 @@ def run_history (case, rep):
              "%r, data-plane output %r" % ([m["name"] for m in msgs],
                                            [p for p, _ in out]))
         return True
-      m = pins[0]
-      rep.count("packet_ins")
-      if m["in_port"] != in_port or m["reason"] != reason:
-        fire("packet-in in_port/reason", "%d/%d vs %d/%d" %
-             (m["in_port"], m["reason"], in_port, reason)); return True
-      bid = m["buffer_id"]
-      if bid == NO_BUFFER:
-        if len(outstanding) < pool:
-          fire("packet-in without buffer id although a buffer is free",
-               "outstanding %d of %d" % (len(outstanding), pool)); return True
-        if pool: rep.count("unbuffered_pool_full"); nt = True
-        if m["data"] != raw:
-          fire("unbuffered packet-in does not carry the whole frame",
-               "data %d bytes, frame %d bytes" % (len(m["data"]), len(raw)))
-          return True
-        if m["total_len"] != len(raw):
-          fire("unbuffered packet-in total_len", "%d vs %d" %
-               (m["total_len"], len(raw))); return True
-      else:
-        rep.count("buffered")
-        if bid in outstanding:
-          fire("buffer id handed out while still outstanding",
-               "id %d" % bid); return True
-        if len(outstanding) >= pool:
-          fire("more packets stored than the advertised buffer count",
-               "pool %d, outstanding before this one %d" %
-               (pool, len(outstanding))); return True
-        if bid in ever: rep.count("ids_reused_after_release")
-        ever.add(bid)
-        outstanding[bid] = (raw, in_port)
-        if len(m["data"]) > limit:
-          fire("buffered packet-in carries more than the %s" %
-               ("miss length" if k == "miss" else "action max_len"),
-               "%d > %d" % (len(m["data"]), limit)); return True
-        if m["data"] != raw[:len(m["data"])]:
-          fire("packet-in data is not a prefix of the frame", ""); return True
-        if len(m["data"]) < min(limit, len(raw)):
-          fire("buffered packet-in carries less than allowed",
-               "%d < min(%d, %d)" % (len(m["data"]), limit, len(raw)))
-          return True
-        if len(m["data"]) < len(raw): rep.count("truncated")
-        if m["total_len"] != len(raw):
-          fire("buffered packet-in total_len is not the frame length",
-               "total_len %d, frame %d, data %d" %
-               (m["total_len"], len(raw), len(m["data"])))
-          return True
+      if not judge_pin(pins[0], raw, in_port, reason, limit): return True
     elif k in ("po", "fm", "stale", "bogus"):
       acts = ACTS[op[2] % len(ACTS)]
       if k in ("po", "fm"):
@@ -212,9 +224,19 @@ def run_history (case, rep):
         nt = True
         rep.count("released_by_flow_mod" if k == "fm" else "released_by_packet_out")
         exp = []
+        to_ctl = []
         for spec, fr, ml in OA.run(raw, acts):
           e = OA.expand(spec, in_port, cfg)
           if isinstance(e, list): exp += [(p, fr) for p in e]
+          elif e == "controller": to_ctl.append((fr, ml))
+        pins = [m for m in msgs if m["name"] == "packet_in"]
+        if len(pins) != len(to_ctl):
+          fire("output to the controller while using a buffer did not produce "
+               "a packet-in", "%d packet-ins, %d expected" % (len(pins), len(to_ctl)))
+          return True
+        for m, (fr, ml) in zip(pins, to_ctl):
+          rep.count("rebuffered_during_release")
+          if not judge_pin(m, fr, in_port, 1, ml, releasing=1): return True
         if sorted(out) != sorted(exp):
           fire("using a buffer id did not emit the stored packet through the "
                "given actions",
@@ -265,13 +287,13 @@ def gen (rng, n, maxlen):
         ops.append(["ctl", rng.choice([1, 2]), rng.choice([0, 40, 60, 61, 300]),
                     rng.randrange(3)])
       elif r < 0.66:
-        ops.append(["po", rng.randrange(8), rng.randrange(5)])
+        ops.append(["po", rng.randrange(8), rng.randrange(len(ACTS))])
       elif r < 0.76:
-        ops.append(["fm", rng.randrange(8), rng.randrange(5)])
+        ops.append(["fm", rng.randrange(8), rng.randrange(len(ACTS))])
       elif r < 0.85:
-        ops.append(["stale", rng.randrange(8), rng.randrange(5)])
+        ops.append(["stale", rng.randrange(8), rng.randrange(len(ACTS))])
       elif r < 0.93:
-        ops.append(["bogus", rng.randrange(5), rng.randrange(5)])
+        ops.append(["bogus", rng.randrange(5), rng.randrange(len(ACTS))])
       else:
         ops.append(["cfg", rng.choice([0, 14, 64, 128, 0xffff])])
     yield dict(pool=pool, ops=ops)
